@@ -243,7 +243,6 @@ func (w ACLWorld) Execute(t *testing.T, pl simkit.Plan, r *simkit.Run) (v *simki
 }
 
 type aclWorldState struct {
-	adminReady bool
 	w          ACLWorld
 	r          *simkit.Run
 	C          *Cluster
@@ -1157,7 +1156,7 @@ func (w ACLWorld) execute(p *Plan, r *simkit.Run) *simkit.Violation {
 		default:
 			r.Sig(st.Op)
 			n := len(s.C.Log)
-			if st.Op == "acl.policy.set" && st.Flag2 && s.policyRMW(st) {
+			if st.Op == "acl.policy.set" && st.Flag2 && s.C.PolicyRMW(st) {
 				if len(s.C.Log) > n {
 					s.lastACL = time.Now()
 				}
@@ -1176,29 +1175,3 @@ func (w ACLWorld) execute(p *Plan, r *simkit.Run) *simkit.Violation {
 	return nil
 }
 
-const aclAdminSecret = "5ec4e700-0000-4000-8000-0000000000ad"
-
-// policyRMW updates a stored policy the way `consul acl policy update` does: read the policy, change it,
-// send the whole object back to the real ACL.PolicySet endpoint. False if there is nothing to update
-// (the caller then writes the policy as a new one).
-func (s *aclWorldState) policyRMW(st Step) bool {
-	_, cur, err := s.C.L.State().ACLPolicyGetByID(nil, st.ID, nil)
-	if err != nil || cur == nil {
-		return false
-	}
-	if !s.adminReady {
-		// an operator token that may write ACLs (its policy says so explicitly)
-		s.C.Do(Step{Op: "acl.policy.set", ID: PolicyUUID(99), Name: "verif-admin", Text: `acl = "write"`})
-		s.C.Do(Step{Op: "acl.token.set", ID: TokenUUID(99), Text: aclAdminSecret, List: []string{PolicyUUID(99)}})
-		s.adminReady = true
-	}
-	pol := *cur // Hash, indexes and all, as a client that read it would hold it
-	pol.Rules, pol.Name, pol.Datacenters = st.Text, st.Name, st.List
-	args := &structs.ACLPolicySetRequest{Datacenter: "dc1", Policy: pol, WriteRequest: structs.WriteRequest{Token: aclAdminSecret}}
-	var reply structs.ACLPolicy
-	var rerr error
-	s.C.Main(func() { rerr = consul.VerifACLPolicySet(s.C.Shell, args, &reply) })
-	s.r.Eventf("acl.policy.set through the endpoint (read-modify-write) %s -> err=%v", st.Name, rerr != nil)
-	s.r.Hit("probe.policy-read-modify-write")
-	return true
-}
